@@ -249,7 +249,8 @@ async def run_history(
             rest_wo = [w for w in rest if not IDRESP.match(w)]
             verdict = _check_id(pred, rec, model, resp)
             if verdict is not None:
-                if "idalloc" in aspects:
+                addressing = verdict[0] in ("id-answer-misaddressed", "id-answer-count")
+                if "idalloc" in aspects or ("writes" in aspects and addressing):
                     return bad(verdict[0], verdict[1], idx), info
                 info["diverged"] = True
                 classes["diverged-elsewhere"] += 1
